@@ -1,21 +1,24 @@
 /-
 C12 — property theorems: master capacity accounting.
 
-Main result `counters_run_partial`: for every operation sequence of the model (connects, max-count
-changes, full and incremental volume heartbeats, incremental EC heartbeats, disconnects, refresh
-rounds) the invariant `CountersOk` (every disk counter = recount of what is registered on the disk;
-node = disk; rack / data center / topology = sums over the connected servers) is preserved, provided
-every incremental deletion names a volume that is registered at that moment with the same remote flag
-(`DelsOk`; the excluded inputs are the known findings inc/volume-count and inc/remote-volume-count,
-whose witnesses are proved below).  For full EC heartbeats (`UpdateEcShards`) the hierarchy and the
-volume counters are proved (`hier_vols_step`); the EC shard counter of that one operation is
-covered by the correspondence check only.
+Main result `counters_eq_recount_partial`: for every operation sequence of the model — ALL operation
+kinds: connects, max-count changes, full and incremental volume heartbeats, full and incremental EC
+heartbeats, disconnects, refresh rounds — the invariant `CountersOk` (every disk counter = recount of
+what is registered on the disk; node = disk; rack / data center / topology = sums over the connected
+servers) is preserved, provided every incremental deletion names a volume that is registered at that
+moment with the same remote flag (`DelsOk`; the excluded inputs are the known findings inc/volume-count
+and inc/remote-volume-count, whose witnesses are proved below).  Everything else in `OpOkE` is
+well-formedness of the messages (ids and disk types in the modelled range; a full EC heartbeat lists a
+volume once and under the disk type its shards are registered on — the recorded assumptions of
+props/C12/prop.json).  The EC conjunct through `UpdateEcShards` rests on `popcount_diff`
+(popcount(new) − popcount(old) = popcount(new \ old) − popcount(old \ new), Lemmas/C12Ec).
 -/
 import SwV.Model.C11
 import SwV.Spec.C12
 import SwV.Lemmas.C12
+import SwV.Lemmas.C12Ec
 namespace SwV.Props.C12
-open SwV.Model.C11 SwV.Spec.C12 SwV.Lemmas.C12
+open SwV.Model.C11 SwV.Spec.C12 SwV.Lemmas.C12 SwV.Lemmas.C12Ec
 
 /-! ## effect of UpAdjustDiskUsageDelta on the fields -/
 
@@ -755,11 +758,9 @@ theorem counters_step_partial (st : St) (N : Nat) (op : Op) (h : CountersOk st.t
   rw [← step_core] at this
   exact ⟨this.hier, this.vols, this.ec ⟨trivial, hne⟩⟩
 
-/-- C12, main theorem: after ANY well-formed operation sequence from the empty topology every disk's
-    volume / remote / EC counters equal the recount of what is registered on it, every node equals its
-    disk, and every rack, data center and the topology equal the sums over their connected servers.
-    (Sequences without full EC heartbeats; with them see `hier_vols_run`.) -/
-theorem counters_eq_recount_partial (limit : Nat) (asMin : Bool) (nVid N : Nat) (ops : List Op)
+/-- C12 for sequences without full EC heartbeats (no condition on the EC messages at all); superseded by
+    `counters_eq_recount_partial` below, which covers every operation kind -/
+theorem counters_run_noEcFull_partial (limit : Nat) (asMin : Bool) (nVid N : Nat) (ops : List Op)
     (hops : OpsOk (init limit asMin nVid) N ops) (hne : ∀ op ∈ ops, ¬ isEcFull op) :
     CountersOk (run (init limit asMin nVid) ops).toCore N := by
   have := ok_run (ok_init limit asMin nVid N) ops hops
@@ -772,6 +773,261 @@ theorem hier_vols_run (limit : Nat) (asMin : Bool) (nVid N : Nat) (ops : List Op
     HierOk (run (init limit asMin nVid) ops).toCore N ∧ DiskVolOk (run (init limit asMin nVid) ops).toCore := by
   have := ok_run (ok_init limit asMin nVid N) ops hops
   exact ⟨this.hier, this.vols⟩
+
+/-! ## full EC heartbeats: the EC shard counter through `UpdateEcShards` -/
+
+/-- DataNode.UpdateEcShards (full EC heartbeat) keeps the WHOLE accounting exact, EC shard counters included -/
+theorem ok_updateEcShards_ec {c : Core} {N : Nat} (h : Ok c N True) (s : Nat) (actual : List EcInfo)
+    (hc : c.conn s = true) (hs : s < N) (w : EcFullOk c s actual) (hd : EcDisksOk c) :
+    Ok (c.updateEcShards s actual).1 N True ∧ Same (c.updateEcShards s actual).1 c := by
+  have h1 := ok_updateEcShards h s actual hc hs
+  exact ⟨⟨h1.1.hier, h1.1.vols, fun _ => diskEc_updateEcShards c s actual (h.ec trivial) hc w hd⟩, h1.2⟩
+
+/-! ### shards are registered on the two modelled disk types only (`EcDisksOk` is an invariant) -/
+
+@[simp] theorem nodeUp_ecs (c : Core) (s t d) : (c.nodeUp s t d).ecs = c.ecs := rfl
+
+theorem addOrUpdate_ecs (c : Core) (s : Nat) (v : VInfo) : (c.addOrUpdate s v).1.ecs = c.ecs := by
+  cases h : c.vols s v.key.disk v.id with
+  | none => simp only [Core.addOrUpdate, h]; rfl
+  | some old => simp only [Core.addOrUpdate, h]; split <;> rfl
+
+theorem sweepGone_ecs (c : Core) (s : Nat) (actual : List VInfo) (t n : Nat) : (c.sweepGone s actual t n).1.ecs = c.ecs := by
+  induction n with
+  | zero => rfl
+  | succ n ih =>
+    simp only [Core.sweepGone]
+    split
+    · split
+      · exact ih
+      · exact ih
+    · exact ih
+
+theorem addAll_ecs (c : Core) (s : Nat) (vs : List VInfo) : (c.addAll s vs).1.ecs = c.ecs := by
+  induction vs generalizing c with
+  | nil => rfl
+  | cons v vs ih => simp only [Core.addAll]; rw [ih, addOrUpdate_ecs]
+
+theorem updateVolumes_ecs (c : Core) (s : Nat) (vs : List VInfo) : (c.updateVolumes s vs).1.ecs = c.ecs := by
+  unfold Core.updateVolumes
+  simp only []
+  rw [addAll_ecs, sweepGone_ecs, sweepGone_ecs]
+
+theorem deltaUpdateVolumes_ecs (c : Core) (s : Nat) (news dels : List VInfo) : (c.deltaUpdateVolumes s news dels).ecs = c.ecs := by
+  unfold Core.deltaUpdateVolumes
+  have h1 : ∀ (l : List VInfo) (c : Core), (l.foldl (fun c v => c.delVol s v.key.disk v.id v.remote) c).ecs = c.ecs := by
+    intro l; induction l with
+    | nil => intro c; rfl
+    | cons a l ih => intro c; simp only [List.foldl_cons]; rw [ih]; rfl
+  have h2 : ∀ (l : List VInfo) (c : Core), (l.foldl (fun c v => (c.addOrUpdate s v).1) c).ecs = c.ecs := by
+    intro l; induction l with
+    | nil => intro c; rfl
+    | cons a l ih => intro c; simp only [List.foldl_cons]; rw [ih, addOrUpdate_ecs]
+  rw [h2, h1]
+
+theorem adjustMax_ecs (c : Core) (s mh ms : Nat) : (c.adjustMax s mh ms).ecs = c.ecs := by
+  have h1 : ∀ (c : Core) t m, (c.adjustMax1 s t m).ecs = c.ecs := by
+    intro c t m; unfold Core.adjustMax1; split
+    · rfl
+    · split <;> rfl
+  unfold Core.adjustMax
+  split
+  · rw [h1, h1]
+  · rfl
+
+theorem ecDisks_connect {c : Core} (hd : EcDisksOk c) (s dc rack mh ms : Nat) : EcDisksOk (c.connect s dc rack mh ms) := by
+  unfold Core.connect
+  split
+  · exact hd
+  · dsimp only
+    have key : ∀ s' t vid, 2 ≤ t → (if s' = s then (fun _ _ => 0 : Nat → Nat → Nat) else c.ecs s') t vid = 0 := by
+      intro s' t vid ht
+      split
+      · rfl
+      · exact hd s' t vid ht
+    split
+    · intro s' t vid ht; exact key s' t vid ht
+    · intro s' t vid ht; exact key s' t vid ht
+
+theorem ecDisks_deltaUpdateEcShards {c : Core} (hd : EcDisksOk c) (s : Nat) (news dels : List EcInfo)
+    (hr : ∀ e ∈ news ++ dels, e.disk < 2) : EcDisksOk (c.deltaUpdateEcShards s news dels) := by
+  unfold Core.deltaUpdateEcShards
+  have setP : ∀ (c : Core) (e : EcInfo) (x : Nat), EcDisksOk c → e.disk < 2 → ∀ s' t vid, 2 ≤ t → upd3 c.ecs s e.disk e.id x s' t vid = 0 := by
+    intro c e x hd he s' t vid ht
+    have : ¬ (s' = s ∧ t = e.disk ∧ vid = e.id) := fun ⟨_, b, _⟩ => by omega
+    simp only [upd3, this, if_false]
+    exact hd s' t vid ht
+  have h1 : ∀ (l : List EcInfo), (∀ e ∈ l, e.disk < 2) → ∀ c : Core, EcDisksOk c → EcDisksOk (l.foldl (fun c e => c.addEc s e) c) := by
+    intro l; induction l with
+    | nil => intro _ c hc; exact hc
+    | cons a l ih =>
+      intro hl c hc
+      simp only [List.foldl_cons]
+      refine ih (fun e he => hl e (by simp [he])) _ ?_
+      intro s' t vid ht
+      exact setP c a _ hc (hl a (by simp)) s' t vid ht
+  have h2 : ∀ (l : List EcInfo), (∀ e ∈ l, e.disk < 2) → ∀ c : Core, EcDisksOk c → EcDisksOk (l.foldl (fun c e => c.delEc s e) c) := by
+    intro l; induction l with
+    | nil => intro _ c hc; exact hc
+    | cons a l ih =>
+      intro hl c hc
+      simp only [List.foldl_cons]
+      refine ih (fun e he => hl e (by simp [he])) _ ?_
+      simp only [Core.delEc]
+      split
+      · exact hc
+      · intro s' t vid ht
+        exact setP c a _ hc (hl a (by simp)) s' t vid ht
+  exact h2 dels (fun e he => hr e (by simp [he])) _ (h1 news (fun e he => hr e (by simp [he])) c hd)
+
+/-- the conditions on EC messages: modelled disk types, and `EcFullOk` for a full EC heartbeat
+    (each volume listed once, under the disk type its shards are registered on) -/
+def EcOpOk (c : Core) : Op → Prop
+  | .ecfull s es => c.conn s = true → EcFullOk c s es
+  | .ecinc _ ns ds => ∀ e ∈ ns ++ ds, e.disk < 2
+  | _ => True
+
+/-- well-formed operation: `OpOk` (ranges; `DelsOk` for incremental deletions) + `EcOpOk` -/
+def OpOkE (c : Core) (N : Nat) (op : Op) : Prop := OpOk c N op ∧ EcOpOk c op
+
+theorem ecDisks_step {c : Core} (hd : EcDisksOk c) (op : Op) (he : EcOpOk c op) : EcDisksOk (stepCore c op) := by
+  cases op with
+  | conn s dc rack mh ms => exact ecDisks_connect hd s dc rack mh ms
+  | max s mh ms => intro s' t vid ht; simp only [stepCore]; rw [adjustMax_ecs]; exact hd s' t vid ht
+  | full s vs =>
+    simp only [stepCore]; split
+    · intro s' t vid ht; rw [updateVolumes_ecs]; exact hd s' t vid ht
+    · exact hd
+  | inc s ns ds =>
+    simp only [stepCore]; split
+    · intro s' t vid ht; rw [deltaUpdateVolumes_ecs]; exact hd s' t vid ht
+    · exact hd
+  | ecfull s es =>
+    simp only [stepCore]; split
+    · next hc => exact ecDisks_updateEcShards c s es hd (fun e h => ((he hc).range e h).2)
+    · exact hd
+  | ecinc s ns ds =>
+    simp only [stepCore]; split
+    · exact ecDisks_deltaUpdateEcShards hd s ns ds he
+    · exact hd
+  | disc s =>
+    simp only [stepCore]; split
+    · exact hd
+    · exact hd
+  | refresh => exact hd
+
+/-- one operation — of ANY kind — preserves the complete invariant -/
+theorem okE_step {c : Core} {N : Nat} (h : Ok c N True) (hd : EcDisksOk c) (op : Op) (hop : OpOkE c N op) :
+    Ok (stepCore c op) N True ∧ EcDisksOk (stepCore c op) := by
+  refine ⟨?_, ecDisks_step hd op hop.2⟩
+  cases op with
+  | ecfull s es =>
+    simp only [stepCore]
+    split
+    · next hc => exact (ok_updateEcShards_ec h s es hc hop.1 (hop.2 hc) hd).1
+    · exact h
+  | conn s dc rack mh ms => exact (ok_step h _ hop.1).1.mono (fun _ => ⟨trivial, fun f => f⟩)
+  | max s mh ms => exact (ok_step h _ hop.1).1.mono (fun _ => ⟨trivial, fun f => f⟩)
+  | full s vs => exact (ok_step h _ hop.1).1.mono (fun _ => ⟨trivial, fun f => f⟩)
+  | inc s ns ds => exact (ok_step h _ hop.1).1.mono (fun _ => ⟨trivial, fun f => f⟩)
+  | ecinc s ns ds => exact (ok_step h _ hop.1).1.mono (fun _ => ⟨trivial, fun f => f⟩)
+  | disc s => exact (ok_step h _ hop.1).1.mono (fun _ => ⟨trivial, fun f => f⟩)
+  | refresh => exact (ok_step h _ hop.1).1.mono (fun _ => ⟨trivial, fun f => f⟩)
+
+/-- every operation of the sequence is well-formed (`OpOkE`) in the state it is applied to -/
+def OpsOkE (st : St) (N : Nat) : List Op → Prop
+  | [] => True
+  | op :: ops => OpOkE st.toCore N op ∧ OpsOkE (step st op) N ops
+
+theorem okE_run {st : St} {N : Nat} (h : Ok st.toCore N True) (hd : EcDisksOk st.toCore) (ops : List Op)
+    (hops : OpsOkE st N ops) : Ok (run st ops).toCore N True ∧ EcDisksOk (run st ops).toCore := by
+  induction ops generalizing st with
+  | nil => exact ⟨h, hd⟩
+  | cons op ops ih =>
+    simp only [run, List.foldl_cons]
+    have h1 := okE_step h hd op hops.1
+    rw [← step_core] at h1
+    exact ih h1.1 h1.2 hops.2
+
+/-- C12, invariant step for EVERY operation kind (full EC heartbeats included) -/
+theorem counters_step_all_partial (st : St) (N : Nat) (op : Op) (h : CountersOk st.toCore N)
+    (hd : EcDisksOk st.toCore) (hop : OpOkE st.toCore N op) : CountersOk (step st op).toCore N := by
+  have := (okE_step (N := N) ⟨h.hier, h.vols, fun _ => h.ec⟩ hd op hop).1
+  rw [← step_core] at this
+  exact ⟨this.hier, this.vols, this.ec trivial⟩
+
+/-- C12, main theorem: after ANY well-formed operation sequence from the empty topology — connects,
+    max-count changes, full and incremental volume heartbeats, full and incremental EC heartbeats,
+    disconnects, refresh rounds — every disk's volume / remote / EC counters equal the recount of what is
+    registered on it, every node equals its disk, and every rack, data center and the topology equal the
+    sums over their connected servers.  The only semantic hypothesis inside `OpsOkE` is `DelsOk`
+    (incremental deletions name registered volumes with the right remote flag = the two open findings);
+    the rest is well-formedness of the messages. -/
+theorem counters_eq_recount_partial (limit : Nat) (asMin : Bool) (nVid N : Nat) (ops : List Op)
+    (hops : OpsOkE (init limit asMin nVid) N ops) : CountersOk (run (init limit asMin nVid) ops).toCore N := by
+  have := (okE_run (ok_init limit asMin nVid N) (fun _ _ _ _ => rfl) ops hops).1
+  exact ⟨this.hier, this.vols, this.ec trivial⟩
+
+/-- `OpOkE` in a form `decide` can evaluate (bounded quantifiers only) -/
+def DelsOkB (c : Core) (s : Nat) : List VInfo → Bool
+  | [] => true
+  | v :: vs => (match c.vols s v.key.disk v.id with | some old => old.remote == v.remote | none => false) &&
+      decide (v.id < c.nVid + 1) && DelsOkB (c.delVol s v.key.disk v.id v.remote) s vs
+
+theorem delsOk_of_B (c : Core) (s : Nat) (l : List VInfo) : DelsOkB c s l = true → DelsOk c s l := by
+  induction l generalizing c with
+  | nil => intro _; trivial
+  | cons v vs ih =>
+    intro h
+    simp only [DelsOkB, Bool.and_eq_true, decide_eq_true_eq] at h
+    refine ⟨?_, h.1.2, ih _ h.2⟩
+    cases hv : c.vols s v.key.disk v.id with
+    | none => simp [hv] at h
+    | some old => exact ⟨old, rfl, by simpa [hv] using h.1.1⟩
+
+def OpOkB (c : Core) (N : Nat) : Op → Prop
+  | .conn s _ _ _ _ => s < N
+  | .max s _ _ => s < N
+  | .full s vs => s < N ∧ ∀ v ∈ vs, v.id < c.nVid + 1
+  | .inc s ns ds => s < N ∧ (∀ v ∈ ns, v.id < c.nVid + 1) ∧ (c.conn s = true → DelsOkB c s ds = true)
+  | .ecfull s es => s < N ∧ (c.conn s = true →
+      (es.map (·.id)).Nodup ∧ (∀ e ∈ es, e.id < c.nVid + 1 ∧ e.disk < 2) ∧ ∀ e ∈ es, ∀ t, t < 2 → c.ecs s t e.id ≠ 0 → t = e.disk)
+  | .ecinc s ns ds => s < N ∧ (∀ e ∈ ns ++ ds, e.id < c.nVid + 1) ∧ ∀ e ∈ ns ++ ds, e.disk < 2
+  | .disc s => s < N
+  | .refresh => True
+
+instance (c : Core) (N : Nat) (op : Op) : Decidable (OpOkB c N op) := by
+  cases op <;> unfold OpOkB <;> infer_instance
+
+theorem opOkE_of_B (c : Core) (N : Nat) (op : Op) : OpOkB c N op → OpOkE c N op := by
+  cases op with
+  | conn s dc rack mh ms => intro h; exact ⟨h, trivial⟩
+  | max s mh ms => intro h; exact ⟨h, trivial⟩
+  | full s vs => intro h; exact ⟨h, trivial⟩
+  | inc s ns ds => intro h; exact ⟨⟨h.1, h.2.1, fun hc => delsOk_of_B c s ds (h.2.2 hc)⟩, trivial⟩
+  | ecfull s es => intro h; exact ⟨h.1, fun hc => ⟨(h.2 hc).1, (h.2 hc).2.1, (h.2 hc).2.2⟩⟩
+  | ecinc s ns ds => intro h; exact ⟨⟨h.1, h.2.1⟩, h.2.2⟩
+  | disc s => intro h; exact ⟨h, trivial⟩
+  | refresh => intro _; exact ⟨trivial, trivial⟩
+
+/-- the hypotheses of the main theorem are satisfiable by a history with every kind of operation,
+    including full EC heartbeats that add, change and drop several EC volumes at once -/
+example : OpsOkE (init 1000 false 12) 4
+    [.conn 0 0 0 5 4, .conn 1 0 1 5 0, .max 0 7 9, .full 0 [⟨3, 10, false, true, ⟨0, 1, 0, 0⟩⟩],
+     .inc 1 [⟨3, 0, false, false, ⟨0, 1, 0, 0⟩⟩] [], .ecinc 1 [⟨5, 0, 0, 7⟩] [⟨5, 0, 0, 2⟩],
+     .ecfull 1 [⟨5, 0, 0, 12⟩, ⟨6, 0, 1, 3⟩], .ecfull 1 [⟨6, 0, 1, 5⟩, ⟨7, 0, 0, 1⟩],
+     .inc 1 [] [⟨3, 0, false, false, ⟨0, 1, 0, 0⟩⟩], .refresh, .disc 0] := by
+  have wf : ∀ (c : Core) (N : Nat) (op : Op), decide (OpOkB c N op) = true → OpOkE c N op := fun c N op h => opOkE_of_B c N op (of_decide_eq_true h)
+  refine ⟨wf _ _ _ (by decide), wf _ _ _ (by decide), wf _ _ _ (by decide), wf _ _ _ (by decide), wf _ _ _ (by decide),
+    wf _ _ _ (by decide), wf _ _ _ (by decide), wf _ _ _ (by decide), wf _ _ _ (by decide), wf _ _ _ (by decide),
+    wf _ _ _ (by decide), trivial⟩
+
+/-- the well-formedness condition "a full EC heartbeat lists a volume once" is needed: UpdateEcShards
+    adds the shard count of every message entry whose volume was not registered at entry, so a
+    duplicated entry is counted twice (volume servers build the message from a map and never do this) -/
+theorem ecfull_duplicate_entry_counts_twice :
+    let st := run (init 1000 false 12) [.conn 0 0 0 5 0, .ecfull 0 [⟨3, 0, 0, 7⟩, ⟨3, 0, 0, 7⟩]]
+    (st.cDisk 0 0).ec = 6 ∧ recountEc st.toCore 0 0 = 3 := by decide
 
 /-! ## the full statement is false of the code: witnesses of the two known findings -/
 
